@@ -343,6 +343,10 @@ func MergeErrors(p *load.Prog, r *oblig.Report, rule string) {
 				pair = true
 			case linesLookupKey(lines) != "" && linesLookupKey(lines) == filePath:
 				pair = true
+			case pairedFields(fn, file, lines):
+				// File and lines are two fields of one record, and every such record is built from one module:
+				// {name: M.Name, lines: strings.Split(M.Contents, "\n")}
+				pair = true
 			}
 			if !pair {
 				r.Bad(rule, construct, pos, "File is "+filePath+" but the line is searched in "+linesPath+": file and position belong to different files")
@@ -377,7 +381,7 @@ func MergeErrors(p *load.Prog, r *oblig.Report, rule string) {
 				r.Unknown(rule, construct, pos, "unknown kind of merge error: "+msg)
 			case finder != want:
 				r.Bad(rule, construct, pos, "a '"+firstWords(msg)+"' error looks its line up with "+finder+", expected "+want+": the position would be that of a different kind of declaration")
-			case len(fargs) != 2 || fargs[1] != lines:
+			case len(fargs) != 2 || (fargs[1] != lines && !(e5path.AccessPath(fargs[1]) == e5path.AccessPath(lines) && !strings.HasPrefix(e5path.AccessPath(lines), "‹"))):
 				r.Bad(rule, construct, pos, "the finder searches other lines than the ones the column is computed on")
 			case e5path.AccessPath(fargs[0]) != e5path.AccessPath(sym):
 				r.Bad(rule, construct, pos, "the finder looks for "+e5path.AccessPath(fargs[0])+" but the column is computed for "+e5path.AccessPath(sym))
@@ -428,6 +432,76 @@ func linesFromContentsOf(lines ssa.Value, owner string) bool {
 		return false
 	}
 	return e5path.AccessPath(call.Common().Args[0]) == owner+".Contents"
+}
+
+// pairedFields: file and lines are fields of the same struct value, and every literal of that struct type the
+// merger (or a helper of its package) builds takes the one from <M>.Name and the other from
+// strings.Split(<M>.Contents, …) of the same module M.
+func pairedFields(merger *ssa.Function, file, lines ssa.Value) bool {
+	fieldOf := func(v ssa.Value) (ssa.Value, int, types.Type) {
+		switch x := v.(type) {
+		case *ssa.UnOp:
+			if fa, ok := x.X.(*ssa.FieldAddr); ok {
+				return fa.X, fa.Field, fa.X.Type()
+			}
+		case *ssa.Field:
+			return x.X, x.Field, x.X.Type()
+		}
+		return nil, 0, nil
+	}
+	fb, ff, ft := fieldOf(file)
+	lb, lf, lt := fieldOf(lines)
+	if fb == nil || lb == nil || ff == lf || !types.Identical(ft, lt) || e5path.AccessPath(fb) != e5path.AccessPath(lb) {
+		return false
+	}
+	st := ft
+	if p, ok := st.Underlying().(*types.Pointer); ok {
+		st = p.Elem()
+	}
+	n, okAll := 0, true
+	for _, m := range merger.Pkg.Members {
+		f, isFn := m.(*ssa.Function)
+		if !isFn {
+			continue
+		}
+		for _, b := range f.Blocks {
+			for _, in := range b.Instrs {
+				al, ok := in.(*ssa.Alloc)
+				if !ok || !types.Identical(al.Type().Underlying().(*types.Pointer).Elem(), st) || al.Referrers() == nil {
+					continue
+				}
+				var nameV, linesV ssa.Value
+				for _, ref := range *al.Referrers() {
+					fa, ok := ref.(*ssa.FieldAddr)
+					if !ok || fa.Referrers() == nil {
+						continue
+					}
+					for _, r2 := range *fa.Referrers() {
+						if s, ok := r2.(*ssa.Store); ok && s.Addr == ssa.Value(fa) {
+							if fa.Field == ff {
+								nameV = s.Val
+							}
+							if fa.Field == lf {
+								linesV = s.Val
+							}
+						}
+					}
+				}
+				if nameV == nil && linesV == nil {
+					continue // a spilled copy (value receiver), not a literal
+				}
+				n++
+				np := ""
+				if nameV != nil {
+					np = e5path.AccessPath(nameV)
+				}
+				if !strings.HasSuffix(np, ".Name") || linesV == nil || !linesFromContentsOf(linesV, strings.TrimSuffix(np, ".Name")) {
+					okAll = false
+				}
+			}
+		}
+	}
+	return n > 0 && okAll
 }
 
 // linesLookupKey: lines == moduleFiles[key] → path of key
